@@ -519,6 +519,19 @@ func (t *Trie) removeRef(h util.Uint256, bs []byte) {
 	}
 }
 
+// checkStoredNodeType returns an error for nodes that are never stored on
+// their own: hash and empty nodes only refer to other nodes or to nothing. The
+// data can come from an untrusted source (proofs, MPT nodes from peers) and a
+// hash node resolving to itself would never end.
+func checkStoredNodeType(n Node) error {
+	switch n.(type) {
+	case *BranchNode, *ExtensionNode, *LeafNode:
+		return nil
+	default:
+		return fmt.Errorf("unexpected node of type %d in the storage", n.Type())
+	}
+}
+
 func (t *Trie) getFromStore(h util.Uint256) (Node, error) {
 	data, err := getFromStore(makeStorageKey(h), t.mode, t.Store)
 	if err != nil {
@@ -530,6 +543,9 @@ func (t *Trie) getFromStore(h util.Uint256) (Node, error) {
 	n.DecodeBinary(r)
 	if r.Err != nil {
 		return nil, r.Err
+	}
+	if err = checkStoredNodeType(n.Node); err != nil {
+		return nil, err
 	}
 
 	if t.mode.RC() {
